@@ -9,6 +9,8 @@ import FqModel.C07Enc
 import Proofs.C07Enc
 import Proofs.C07Strip
 import Proofs.C07Num
+import FqModel.C07Own
+import Proofs.C07Own
 /-!
   C07 — standard jq programs behave in fq as in the reference jq engine   (claimed PARTIAL, category `other`)
 
@@ -550,6 +552,132 @@ example : fqFromJSON [.value 0, .eof] = .ok 0 ∧ gojqFromJSON (.value 0) true =
    that is the root string of a previous json decode is re-decoded from its buffer, quotes included
    (`c07-fromjson-of-fromjson-root-string`); and fq extends the domain to non-strings (see the assumptions). -/
 end TextLayer
+
+/-! ## (F) fq's OWN jq value types (internal/gojqx/types.go) under the reference engine's dispatch
+
+  The top-level result of fq's `fromjson` (and of every from_* decoder) is a decode value whose JQValue is
+  gojqx.String / Array / … ; the embedded engine calls its JQValue* methods where it would work on the plain Go
+  value otherwise.  `FqModel/C07Own.lean` transliterates both sides (gojq func.go:1140-1277, types.go:221-231,
+  412-423).  Strings are lists of code points with an ARBITRARY encoder (1..4 bytes per code point in UTF-8):
+  the reference slices BYTES at code-point boundaries, fq slices the `[]rune`.  Tie: run `own` of harness c07
+  (every slice `.[a:b]`, a, b ∈ −8..8 or absent, and ~240 other operations on strings of 0..7 code points over
+  {a, å, €, 😀, U+0000, U+FFFD}, arrays and objects built from them; fq on the fromjson'd value vs the reference on
+  the plain value). -/
+section Own
+open FqModel.C07Own Proofs.C07Own
+
+/-- `.[a:b]` on a gojqx.String = `.[a:b]` on the plain Go string, for EVERY string, every encoder and all bounds
+    (negative, out of range, absent): never a panic, and the bytes are those of code points [start, stop). -/
+theorem gojqx_string_transparent {α : Type} (enc : Nat → List α) (s : List Nat) (a b : Option Int) :
+    fqStringSlice enc s a b = refStringSlice enc s a b ∧
+    ∃ st en : Nat, st ≤ en ∧ en ≤ s.length ∧ fqStringSlice enc s a b = some (bytes enc ((s.drop st).take (en - st))) := by
+  obtain ⟨h0, h1, h2⟩ := bounds_ok s.length a b
+  generalize hb : bounds s.length a b = p at h0 h1 h2
+  obtain ⟨st, en⟩ := p
+  simp only at h0 h1 h2
+  have hst : st = ((st.toNat : Nat) : Int) := by omega
+  have hen : en = ((en.toNat : Nat) : Int) := by omega
+  have hle : st.toNat ≤ en.toNat := by omega
+  have hlen : en.toNat ≤ s.length := by omega
+  have hfq : fqStringSlice enc s a b = some (bytes enc ((s.drop st.toNat).take (en.toNat - st.toNat))) := by
+    unfold fqStringSlice
+    rw [hb]
+    simp only [goSlice]
+    rw [if_pos ⟨h0, h1, h2⟩]; rfl
+  refine ⟨?_, st.toNat, en.toNat, hle, hlen, hfq⟩
+  rw [hfq]
+  unfold refStringSlice
+  rw [hb]
+  simp only
+  rw [hst, hen, byteOff_spec enc s _ (by omega), byteOff_spec enc s _ hlen]
+  simp only [goSlice]
+  have m1 : (bytes enc (s.take st.toNat)).length ≤ (bytes enc (s.take en.toNat)).length := by
+    have : s.take en.toNat = s.take st.toNat ++ (s.drop st.toNat).take (en.toNat - st.toNat) := by
+      have e : en.toNat = st.toNat + (en.toNat - st.toNat) := by omega
+      conv => lhs; rw [e]
+      exact List.take_add
+    rw [this, bytes_append, List.length_append]; omega
+  have m2 : (bytes enc (s.take en.toNat)).length ≤ (bytes enc s).length := by
+    have : s = s.take en.toNat ++ s.drop en.toNat := (List.take_append_drop _ _).symm
+    conv => rhs; rw [this]
+    rw [bytes_append, List.length_append]; omega
+  rw [if_pos ⟨by omega, by omega, by omega⟩]
+  simp only [Int.toNat_natCast]
+  rw [slice_bytes enc s _ _ hle hlen]
+
+/-- length / slice length: `len([]rune)` on both sides (types.go:414-415 vs func.go:1149, 1199) — definitional in a
+    model whose strings are code-point lists; stated so that a change of the model's length shows up here -/
+theorem gojqx_string_length (s : List Nat) (a b : Option Int) :
+    (bounds s.length a b).2 ≤ (s.length : Int) ∧ 0 ≤ (bounds s.length a b).1 := by
+  have := bounds_ok s.length a b; omega
+
+/-- `.[i]` INSIDE the string: the same code point, no panic.
+    FULL statement (`∀ i, fqStringIndex s i = refIdxOut s i`) is FALSE in /repo: outside the string gojqx.String
+    answers `""` and the reference null (`gojqx_string_index_outside_differs`, known finding
+    c07-gojqx-string-index-outside) — hence `_partial`. -/
+theorem gojqx_string_index_partial (s : List Nat) (i : Int)
+    (h : -(s.length : Int) ≤ i ∧ i < (s.length : Int)) : fqStringIndex s i = refIdxOut s i := by
+  have hc : 0 ≤ clampIndex i (-1) (s.length : Int) ∧ clampIndex i (-1) (s.length : Int) < (s.length : Int) := by
+    unfold clampIndex
+    simp only []
+    split <;> split <;> (try split) <;> omega
+  unfold fqStringIndex refIdxOut refStringIndex goIndex
+  simp only []
+  generalize clampIndex i (-1) (s.length : Int) = j at hc
+  have n1 : ¬ (j < 0) := by omega
+  have n2 : ¬ (j ≥ (s.length : Int)) := by omega
+  have lt : j.toNat < s.length := by omega
+  simp only [n1, n2, if_false, hc, and_self, if_true, List.getElem?_eq_getElem lt]
+
+/-- the defect of the unchanged tree: outside the string fq's value type says `""`, the reference null -/
+theorem gojqx_string_index_outside_differs :
+    fqStringIndex [0x61, 0x62, 0x63] 5 = .empty ∧ refIdxOut [0x61, 0x62, 0x63] 5 = .null ∧
+    fqStringIndex [] 0 = .empty ∧ refIdxOut [] 0 = .null ∧ fqStringIndex [0x61] (-2) = .empty := by decide
+
+/-- arrays: `.[a:b]` on gojqx.Array has the reference's elements for all bounds, never a panic -/
+theorem gojqx_array_slice_transparent {β : Type} (v : List β) (a b : Option Int) :
+    fqArraySlice v a b = refArraySlice v a b ∧ (fqArraySlice v a b).isSome = true := by
+  refine ⟨rfl, ?_⟩
+  obtain ⟨h0, h1, h2⟩ := bounds_ok v.length a b
+  unfold fqArraySlice goSlice
+  simp only []
+  rw [if_pos ⟨h0, h1, h2⟩]; rfl
+
+/-- arrays: `.[i]` on gojqx.Array = the reference for EVERY index (null outside, on both sides) -/
+theorem gojqx_array_index_transparent {β : Type} (v : List β) (i : Int) : fqArrayIndex v i = refArrayIndex v i := by
+  unfold fqArrayIndex refArrayIndex goIndex
+  simp only []
+  generalize clampIndex i (-1) (v.length : Int) = j
+  by_cases n1 : j < 0
+  · have : ¬ (0 ≤ j ∧ j < (v.length : Int)) := by omega
+    simp only [n1, if_true, this, if_false]
+    rw [if_pos (by omega : (-2 : Int) < 0)]
+  · by_cases n2 : j ≥ (v.length : Int)
+    · have : ¬ (0 ≤ j ∧ j < (v.length : Int)) := by omega
+      simp only [n1, n2, if_true, this, if_false]
+      rw [if_pos (by omega : (-1 : Int) < 0)]
+    · have hc : 0 ≤ j ∧ j < (v.length : Int) := by omega
+      have lt : j.toNat < v.length := by omega
+      simp only [n1, n2, if_false, hc, and_self, if_true, List.getElem?_eq_getElem lt]
+
+/-- the seeded variant S6-C07-1 (string kept as bytes; the end offset is the width of the first end−start code
+    points of the WHOLE string) is not transparent: on "åbcdef" `.[1:3]` returns the bytes of "bcd", `.[3:]`
+    panics; with equal widths or from 0 it agrees — the harness needs mixed widths and a > 0 -/
+theorem seeded_byte_offset_variant_differs :
+    seedStringSlice utf8Tag [0xE5, 0x62, 0x63, 0x64, 0x65, 0x66] (some 1) (some 3) = some (bytes utf8Tag [0x62, 0x63, 0x64]) ∧
+    refStringSlice utf8Tag [0xE5, 0x62, 0x63, 0x64, 0x65, 0x66] (some 1) (some 3) = some (bytes utf8Tag [0x62, 0x63]) ∧
+    seedStringSlice utf8Tag [0xE5, 0x62, 0x63, 0x64, 0x65, 0x66] (some 3) none = none ∧
+    seedStringSlice utf8Tag [0xE5, 0x62, 0x63] (some 0) (some 2) = refStringSlice utf8Tag [0xE5, 0x62, 0x63] (some 0) (some 2) ∧
+    seedStringSlice utf8Tag [0x61, 0x62, 0x63] (some 1) (some 2) = refStringSlice utf8Tag [0x61, 0x62, 0x63] (some 1) (some 2) := by
+  decide
+
+/-- non-vacuity: negative and out-of-range bounds reach the clamping branches; a 2-, 3- and 4-byte code point -/
+example : fqStringSlice utf8Tag [0x61, 0xE5, 0x20AC, 0x1F600] (some (-3)) (some 100) = some (bytes utf8Tag [0xE5, 0x20AC, 0x1F600]) := by decide
+example : refStringSlice utf8Tag [0x61, 0xE5, 0x20AC, 0x1F600] (some (-3)) (some (-1)) = some (bytes utf8Tag [0xE5, 0x20AC]) := by decide
+example : fqStringIndex [0x61, 0xE5] (-1) = .char 0xE5 ∧ refIdxOut [0x61, 0xE5] (-1) = .char 0xE5 := by decide
+example : fqArraySlice [1, 2, 3, 4] (some 5) (some 2) = some [] ∧ fqArrayIndex [1, 2] (-3) = some none := by decide
+
+end Own
 
 /-! ## non-vacuity -/
 
